@@ -57,6 +57,7 @@ J gen_fakesrv(uint64_t seed, const J &ov)
 	if (ov.gets("focus") == "login") { f.set("login_odd", 1.0); f.set("userid", (int)r.range(0, 15)); f.set("p_silent", 0.0); }
 	f.set("p_down", 0.1 + r.uniform() * 0.7);          // share of tunnel answers that carry a downstream fragment
 	f.set("p_down_lie", r.chance(0.4) ? 0.0 : r.uniform() * 0.4);
+	if (r.chance(0.5)) { f.set("p_hold", 0.05 + r.uniform() * 0.5); f.set("hold_max_us", (long long)(r.chance(0.5) ? r.range(2000, 200000) : r.range(200000, 4000000))); }
 	cfg.set("fake", f);
 	uint64_t ser = seed % 1000 * 100000;
 	fk_canary(r, ops, 0.2, 30, 0.3 + r.uniform() * 2, ser);
@@ -86,6 +87,7 @@ struct FakeSrv : Monitor {
 		p_fields = f.getd("p_fields"); p_payload = f.getd("p_payload"); p_answer = f.getd("p_answer"); p_silent = f.getd("p_silent");
 		p_down = f.getd("p_down"); p_down_lie = f.getd("p_down_lie");
 		userid = (int)f.geti("userid"); raw_ok = f.getb("raw_ok"); login_odd = f.getd("login_odd");
+		p_hold = f.getd("p_hold"); hold_max = (uint64_t)f.geti("hold_max_us", 1000000);
 		seed = (uint32_t)splitmix64(key ^ 0x5eed);
 		FakeSrv *self = this;
 		sock = w->S.model_socket(w->srv_host, AF_INET, 53, [self](const Dgram &d) { self->on_rx(d); });
@@ -101,7 +103,20 @@ struct FakeSrv : Monitor {
 		return z_compress(x);
 	}
 
-	void reply(const Dgram &d, const Bytes &b) { if (!b.empty() || true) w->S.send_from(sock, d.src, b); }
+	// answers may be held back and so overtake each other (a lazy-mode server, a slow relay)
+	double p_hold = 0; uint64_t hold_max = 0, nrep = 0;
+	void reply(const Dgram &d, const Bytes &b)
+	{
+		uint64_t n = ++nrep;
+		if (p_hold > 0 && w->S.U("fake.hold", n) < p_hold) {
+			uint64_t dt = w->S.R("fake.holddt", n, 1000, (int64_t)hold_max);
+			Sim *S = &w->S; Sock *so = sock; Addr to = d.src; Bytes data = b;
+			S->after(dt, [S, so, to, data]() { S->send_from(so, to, data); });
+			w->probes["fake.held_replies"]++;
+			return;
+		}
+		w->S.send_from(sock, d.src, b);
+	}
 
 	void on_raw(const Dgram &d, Rng &rr)
 	{
